@@ -9,11 +9,15 @@ const H = "http://s.example"
 func seedKinds() map[string][]Node {
 	return map[string][]Node{
 		// value: nodes of the seed part; the page node (Kind html) receives the assets
-		"page":     {{URL: H + "/page", Kind: "html"}},
-		"redir1":   {{URL: H + "/r1", Kind: "redirect", Location: H + "/page"}, {URL: H + "/page", Kind: "html"}},
-		"redir2":   {{URL: H + "/r2", Kind: "redirect", Location: "/r1"}, {URL: H + "/r1", Kind: "redirect", Code: 302, Location: H + "/page"}, {URL: H + "/page", Kind: "html"}},
-		"404":      {{URL: H + "/gone", Kind: "status", Code: 404}},
-		"500":      {{URL: H + "/boom", Kind: "fail5xx"}},
+		"page":   {{URL: H + "/page", Kind: "html"}},
+		"redir1": {{URL: H + "/r1", Kind: "redirect", Location: H + "/page"}, {URL: H + "/page", Kind: "html"}},
+		"redir2": {{URL: H + "/r2", Kind: "redirect", Location: "/r1"}, {URL: H + "/r1", Kind: "redirect", Code: 302, Location: H + "/page"}, {URL: H + "/page", Kind: "html"}},
+		"404":    {{URL: H + "/gone", Kind: "status", Code: 404}},
+		"500":    {{URL: H + "/boom", Kind: "fail5xx"}},
+		// redirections that lead back onto the path from the seed: a cookie wall (the URL redirects to itself once,
+		// then serves the page), a loop of two, a chain that ends on its own first URL
+		"wall":     {{URL: H + "/wall", Kind: "wall"}},
+		"loop":     {{URL: H + "/x", Kind: "redirect", Code: 302, Location: H + "/y"}, {URL: H + "/y", Kind: "redirect", Code: 302, Location: "/x"}},
 		"badpdf":   {{URL: H + "/doc.pdf", Kind: "badpdf"}},
 		"emptyxml": {{URL: H + "/sitemap.xml", Kind: "emptyxml"}},
 		"nodot":    {},
@@ -21,7 +25,7 @@ func seedKinds() map[string][]Node {
 	}
 }
 
-var seedURL = map[string]string{"page": H + "/page", "redir1": H + "/r1", "redir2": H + "/r2", "404": H + "/gone", "500": H + "/boom",
+var seedURL = map[string]string{"wall": H + "/wall", "loop": H + "/x", "page": H + "/page", "redir1": H + "/r1", "redir2": H + "/r2", "404": H + "/gone", "500": H + "/boom",
 	"badpdf": H + "/doc.pdf", "emptyxml": H + "/sitemap.xml",
 	"nodot": "http://nodot/x", "excluded": "http://web.archive.org/web/x"}
 
@@ -33,23 +37,25 @@ type asset struct {
 
 func assetKinds() map[string]asset {
 	return map[string]asset{
-		"bin":      {H + "/a.png", []Node{{URL: H + "/a.png", Kind: "bin"}}},
-		"bin2":     {"/b.png", []Node{{URL: H + "/b.png", Kind: "bin"}}},
-		"samepage": {H + "/page", nil},
-		"js":       {"javascript:void(0)", nil},
-		"exhost":   {"http://excluded.example/x.png", nil},
-		"404":      {H + "/missing.png", []Node{{URL: H + "/missing.png", Kind: "status", Code: 404}}},
-		"500":      {H + "/boom.png", []Node{{URL: H + "/boom.png", Kind: "fail5xx"}}},
-		"redir":    {H + "/ra", []Node{{URL: H + "/ra", Kind: "redirect", Location: H + "/ra.png"}, {URL: H + "/ra.png", Kind: "bin"}}},
-		"redirB":   {H + "/rb", []Node{{URL: H + "/rb", Kind: "redirect", Code: 302, Location: H + "/ra.png"}, {URL: H + "/ra.png", Kind: "bin"}}},
-		"redirEx":  {H + "/rx", []Node{{URL: H + "/rx", Kind: "redirect", Location: "http://excluded.example/x.png"}}},
-		"m3u8":     {H + "/pl.m3u8", []Node{{URL: H + "/pl.m3u8", Kind: "m3u8", Refs: []string{"seg0.ts"}}, {URL: H + "/seg0.ts", Kind: "bin"}}},
-		"slash":    {"http://other.example/", nil},
-		"flaky":    {H + "/flaky.png", []Node{{URL: H + "/flaky.png", Kind: "flaky", FailN: 1}}},
-		"429":      {H + "/limited.png", []Node{{URL: H + "/limited.png", Kind: "status", Code: 429}}},
-		"cut":      {H + "/cut.png", []Node{{URL: H + "/cut.png", Kind: "cut"}}},
-		"badpdf":   {H + "/a.pdf", []Node{{URL: H + "/a.pdf", Kind: "badpdf"}}},
-		"emptyxml": {H + "/a.xml", []Node{{URL: H + "/a.xml", Kind: "emptyxml"}}},
+		"bin":       {H + "/a.png", []Node{{URL: H + "/a.png", Kind: "bin"}}},
+		"bin2":      {"/b.png", []Node{{URL: H + "/b.png", Kind: "bin"}}},
+		"samepage":  {H + "/page", nil},
+		"js":        {"javascript:void(0)", nil},
+		"exhost":    {"http://excluded.example/x.png", nil},
+		"404":       {H + "/missing.png", []Node{{URL: H + "/missing.png", Kind: "status", Code: 404}}},
+		"500":       {H + "/boom.png", []Node{{URL: H + "/boom.png", Kind: "fail5xx"}}},
+		"redir":     {H + "/ra", []Node{{URL: H + "/ra", Kind: "redirect", Location: H + "/ra.png"}, {URL: H + "/ra.png", Kind: "bin"}}},
+		"redirB":    {H + "/rb", []Node{{URL: H + "/rb", Kind: "redirect", Code: 302, Location: H + "/ra.png"}, {URL: H + "/ra.png", Kind: "bin"}}},
+		"redirSeed": {H + "/rs", []Node{{URL: H + "/rs", Kind: "redirect", Location: H + "/page"}}}, // an asset that redirects onto the page (of seed kinds page/redir*)
+		"redirSelf": {H + "/rl", []Node{{URL: H + "/rl", Kind: "redirect", Code: 302, Location: H + "/rl"}}},
+		"redirEx":   {H + "/rx", []Node{{URL: H + "/rx", Kind: "redirect", Location: "http://excluded.example/x.png"}}},
+		"m3u8":      {H + "/pl.m3u8", []Node{{URL: H + "/pl.m3u8", Kind: "m3u8", Refs: []string{"seg0.ts"}}, {URL: H + "/seg0.ts", Kind: "bin"}}},
+		"slash":     {"http://other.example/", nil},
+		"flaky":     {H + "/flaky.png", []Node{{URL: H + "/flaky.png", Kind: "flaky", FailN: 1}}},
+		"429":       {H + "/limited.png", []Node{{URL: H + "/limited.png", Kind: "status", Code: 429}}},
+		"cut":       {H + "/cut.png", []Node{{URL: H + "/cut.png", Kind: "cut"}}},
+		"badpdf":    {H + "/a.pdf", []Node{{URL: H + "/a.pdf", Kind: "badpdf"}}},
+		"emptyxml":  {H + "/a.xml", []Node{{URL: H + "/a.xml", Kind: "emptyxml"}}},
 	}
 }
 
@@ -57,7 +63,7 @@ func MkSite(name, seedKind string, assets []string) SiteDef {
 	d := SiteDef{Name: name, Seeds: []string{seedURL[seedKind]}}
 	ak := assetKinds()
 	for _, n := range seedKinds()[seedKind] {
-		if n.Kind == "html" {
+		if n.Kind == "html" || n.Kind == "wall" {
 			for _, a := range assets {
 				n.Refs = append(n.Refs, ak[a].ref)
 			}
@@ -82,9 +88,12 @@ func MkSite(name, seedKind string, assets []string) SiteDef {
 // sweep: every seed kind x every multiset of <=2 asset kinds (assets only matter for seeds that reach the page).
 func SweepSites(tier string) []SiteDef {
 	var out []SiteDef
-	akeys := []string{"bin", "samepage", "js", "exhost", "404", "500", "redir", "redirB", "redirEx", "m3u8", "slash", "flaky", "429", "cut", "badpdf", "emptyxml"}
-	for _, sk := range []string{"404", "500", "nodot", "excluded", "badpdf", "emptyxml"} {
+	akeys := []string{"bin", "samepage", "js", "exhost", "404", "500", "redir", "redirB", "redirEx", "m3u8", "slash", "flaky", "429", "cut", "badpdf", "emptyxml", "redirSeed", "redirSelf"}
+	for _, sk := range []string{"404", "500", "nodot", "excluded", "badpdf", "emptyxml", "loop", "wall"} {
 		out = append(out, MkSite("seed="+sk, sk, nil))
+	}
+	for _, a := range akeys {
+		out = append(out, MkSite("seed=wall assets="+a, "wall", []string{a}))
 	}
 	for _, sk := range []string{"page", "redir1", "redir2"} {
 		out = append(out, MkSite("seed="+sk+" assets=none", sk, nil))
